@@ -150,6 +150,8 @@ pub struct SimBufRead {
     pub bound_breached: Option<u64>,
     pub fill_calls: u64,
     pub eof_seen: bool,
+    /// Bytes consumed beyond what fill_buf had exposed (contract breach).
+    pub over_consumed: u64,
 }
 
 impl SimBufRead {
@@ -167,6 +169,7 @@ impl SimBufRead {
             bound_breached: None,
             fill_calls: 0,
             eof_seen: false,
+            over_consumed: 0,
         }
     }
 }
@@ -214,7 +217,11 @@ impl io::BufRead for SimBufRead {
     }
 
     fn consume(&mut self, amt: usize) {
-        let amt = amt.min(self.buf.len() - self.pos);
+        let avail = self.buf.len() - self.pos;
+        if amt > avail {
+            self.over_consumed += (amt - avail) as u64;
+        }
+        let amt = amt.min(avail);
         self.pos += amt;
         self.pulled += amt as u64;
     }
